@@ -261,7 +261,9 @@ class Gen(object):
                     self.line(pre + [{'op': 'RUN', 'n': self.r.choice([('tail', 0), ('tail', 0), 64000])}])
             elif fam == 'stray':
                 self.line([self.r.choice([{'op': 'NEXT', 'vs': []}, {'op': 'WEND'}, {'op': 'RETURN', 'n': 0},
-                                          {'op': 'NEXT', 'vs': ['I']}, {'op': 'GOTO', 'n': 64000}])])
+                                          {'op': 'NEXT', 'vs': ['I']}, {'op': 'GOTO', 'n': 64000},
+                                          {'op': 'GOSUB', 'n': 64000},      # fails: must leave no return record behind
+                                          {'op': 'ON', 'e': C(1), 't': 'GOSUB', 'ns': [64000]}])])
 
     WEIGHTS = {'reset': 0, 'simple': 30, 'for': 20, 'while': 8, 'if': 12, 'gosub': 8, 'on': 6, 'err': 0, 'data': 0, 'trap': 0, 'stray': 0}
 
